@@ -22,7 +22,7 @@ m = {
   ],
   "checks": [],
   "not_applicable": [],
-  "notes": "Every check: ./check <id> quick|thorough rebuilds harness + /repo working tree, exit 0 / 1 (VIOLATION line) / 2 machinery error. Known findings: known_findings.json."
+  "notes": "Every check: ./check <id> quick|thorough rebuilds harness + /repo working tree, exit 0 / 1 (VIOLATION line) / 2 machinery error. Known findings and repaired defects: known_findings.json. No hook in /repo; the only seams (ThreadRng words, datafake clock; used by C15) are patched into copies of the rand and datafake-rs crates under harness/vendor by vendor-patch/make_vendor.sh (offline, from the cargo registry). Seeded changes and which checks catch them: seeded/ and DESIGN.md section 9.7."
 }
 done = set()
 for c in checks:
